@@ -29,7 +29,7 @@ REQUIRED = {
     "mc_entries_checked": 50, "model_rows_checked": 50,
     "in_loop_updates_checked": 100, "planning_updates_checked": 10,
 }
-TIMEOUT = {"quick": 1200, "thorough": 3400}
+TIMEOUT = {"quick": 1200, "thorough": 7000}
 ASSUMPTIONS = [
     "Dyna-Q's update carries no termination flag (textbook convention: terminal "
     "rows are zero); its oracle applies the greedy-successor formula as stated, "
@@ -41,7 +41,7 @@ ALGOS = ["q_learning", "sarsa", "double_q_learning", "dynaq"]
 
 def gen_cases(tier, seed):
     rng = np.random.default_rng(seed + 1414)
-    k = 1 if tier == "quick" else 12
+    k = 1 if tier == "quick" else 60
     cases = []
     for algo in ALGOS:
         for i in range(4 * k):
